@@ -430,6 +430,12 @@ func c19ThrottleBody(r *Run) {
 		starts = append(starts, r.Sim.Now())
 		return []*message.Message{m}, nil
 	})
+	// the rate must hold whatever happens to the message context while Throttle waits
+	ctxMode := t.Int(4) // 0 plain, 1 Timeout shorter than the interval around Throttle, 2 already cancelled context, 3 cancelled while waiting
+	if ctxMode == 1 {
+		h = middleware.Timeout(interval / 4)(h)
+	}
+	r.Describe("message context mode %d (0 plain, 1 Timeout(interval/4) around Throttle, 2 cancelled before the call, 3 cancelled during the wait)", ctxMode)
 	var wg sync.WaitGroup
 	for g := 0; g < nG; g++ {
 		wg.Add(1)
@@ -439,6 +445,21 @@ func c19ThrottleBody(r *Run) {
 			time.Sleep(time.Duration(g) * interval / 3)
 			for i := 0; i < per; i++ {
 				m := message.NewMessage(fmt.Sprintf("g%d-%d", g, i), nil)
+				switch ctxMode {
+				case 2:
+					cctx, ccancel := context.WithCancel(context.Background())
+					ccancel()
+					m.SetContext(cctx)
+					r.Fault("context-cancel")
+				case 3:
+					cctx, ccancel := context.WithCancel(context.Background())
+					m.SetContext(cctx)
+					go func() {
+						time.Sleep(interval / 3)
+						r.Fault("context-cancel")
+						ccancel()
+					}()
+				}
 				outs, err := h(m)
 				if err != nil || len(outs) != 1 || outs[0] != m {
 					r.Fail("C19.R2", "Throttle changed the handler's result", "%v", err)
